@@ -24,8 +24,12 @@ pub enum Place {
     /// first byte of the data is the first byte after the leading guard page
     StartFlush,
     /// data starts `off` bytes into the second half of the region (for alignment sweeps;
-    /// no guard adjacency)
+    /// no guard adjacency), surrounded by 0xAA bytes (outside every byte class)
     Mid(usize),
+    /// like Mid, but surrounded by `a` bytes, which belong to every byte class: a scanner that
+    /// looks at a byte before or behind the buffer keeps going instead of stopping, so that an
+    /// over-read which stays inside mapped memory still changes the result
+    Hostile(usize),
 }
 
 impl Arena {
@@ -65,7 +69,7 @@ impl Arena {
             match place {
                 Place::EndFlush => self.rw.add(self.size - len),
                 Place::StartFlush => self.rw,
-                Place::Mid(off) => {
+                Place::Mid(off) | Place::Hostile(off) => {
                     let base = (self.size / 2) & !63;
                     assert!(base + off + len <= self.size);
                     self.rw.add(base + off)
@@ -79,13 +83,12 @@ impl Arena {
         let p = self.slot(data.len(), place);
         // SAFETY: slot() checked the bounds; the arena outlives every use (threads own it)
         unsafe {
-            // keep what lies just before the buffer deterministic
+            // what lies around the buffer is part of the (replayable) test case: always the same
+            let fill = if let Place::Hostile(_) = place { b'a' } else { 0xAA };
             let before = (p as usize - self.rw as usize).min(64);
-            ptr::write_bytes(p.sub(before), 0xAA, before);
-            if let Place::Mid(_) = place {
-                let after = (self.end() as usize - p as usize - data.len()).min(64);
-                ptr::write_bytes(p.add(data.len()), 0xAA, after);
-            }
+            ptr::write_bytes(p.sub(before), fill, before);
+            let after = (self.end() as usize - p as usize - data.len()).min(64);
+            ptr::write_bytes(p.add(data.len()), fill, after);
             ptr::copy_nonoverlapping(data.as_ptr(), p, data.len());
             std::slice::from_raw_parts(p, data.len())
         }
